@@ -20,6 +20,9 @@ from .core import PathAbort
 from .env import ENV
 
 
+_TRACED = {}          # code object -> is it canopen code (cache for the trace function)
+
+
 class ThreadKill(BaseException):
     pass
 
@@ -62,8 +65,11 @@ class Scheduler:
         if self.dead or self.preempt_left <= 0:
             return None
         co = frame.f_code
-        fn = co.co_filename
-        if not (fn.startswith(self._root) or os.path.realpath(fn).startswith(self._root)):
+        ok = _TRACED.get(co)
+        if ok is None:
+            fn = co.co_filename
+            ok = _TRACED[co] = bool(fn.startswith(self._root) or os.path.realpath(fn).startswith(self._root))
+        if not ok:
             return None
         if self.preempt_only is not None and co.co_name not in self.preempt_only:
             return None
